@@ -29,7 +29,6 @@ from vf.core import Result
 from vf import yq
 from models import plain as P
 
-import yaql
 from yaql import yaql_interface
 
 ID = 'C10'
@@ -180,8 +179,8 @@ def job_documents(tier, k, nchunks):
                 res.evaluations += 1
                 res.transitions += 1
                 res.nontrivial += 1
-                res.outcomes['doc %s%s' % ('value' if obs[0] == 'v' else obs[1],
-                                           ' (image needs an unhashable member)' if bad else '')] += 1
+                res.outcomes['doc root=%s %s%s' % (desc[0], 'value' if obs[0] == 'v' else obs[1],
+                                                   ' (image needs an unhashable member)' if bad else '')] += 1
                 verdict = judge_document(desc, img, bad, obs, t2l, s2l,
                                          '$ on %s with tuples->lists=%s sets->lists=%s%s'
                                          % (text, t2l, s2l, ' via YaqlInterface' if iface else ''))
@@ -247,7 +246,7 @@ def job_producers(tier, k, nchunks):
             res.transitions += 1
             if not label.startswith('evaluation fails'):
                 res.nontrivial += 1
-            res.outcomes['expr ' + label] += 1
+            res.outcomes['expr last=%s %s' % (names[-1] if names else 'atom', label)] += 1
             if verdict:
                 res.fail(verdict[0], case, verdict[1], size=len(text) + (0 if (t2l, s2l) == COMBOS[0] else 1000))
     if k == 0:
